@@ -140,7 +140,7 @@ func emitFunc(name string, par []SParam, ret []string, pre, body string) string 
 	}
 	var ps []string
 	for _, p := range par {
-		ps = append(ps, p.N+" "+p.T)
+		ps = append(ps, p.N+" "+strings.ReplaceAll(strings.ReplaceAll(p.T, "PFN", pname), "FN", name))
 	}
 	rs := ""
 	switch len(ret) {
@@ -170,6 +170,14 @@ func vxForType(t string) string {
 		return "vxBool()"
 	case "float64":
 		return "vxF64()"
+	}
+	if strings.HasSuffix(t, "_lv") {
+		return t + "(vxInt())"
+	}
+	if strings.HasSuffix(t, "_tag") {
+		return t + "(vxConcretizeLen(vxStr(3)))"
+	}
+	switch t {
 	case "string":
 		return "vxConcretizeLen(vxStr(3))"
 	case "[]int":
@@ -184,7 +192,7 @@ func emitDriver(it *SItem, v *SVar) string {
 	sb.WriteString(fmt.Sprintf("// %s vs %s  [%s]\nfunc %s() {\n", pName(it), qName(it, v), v.Kind, name))
 	var slices []string
 	for i, p := range it.Par {
-		sb.WriteString(fmt.Sprintf("\tx%d := %s\n", i, vxForType(p.T)))
+		sb.WriteString(fmt.Sprintf("\tx%d := %s\n", i, vxForType(strings.ReplaceAll(p.T, "FN", pName(it)))))
 		if p.T == "[]int" {
 			slices = append(slices, fmt.Sprintf("%d", i))
 		}
@@ -849,7 +857,11 @@ func emitRunDriver(fn string, par []SParam) string {
 	sb.WriteString(fmt.Sprintf("func VerifRun_%s() {\n", fn))
 	var args []string
 	for i, p := range par {
-		sb.WriteString(fmt.Sprintf("\tx%d := %s\n", i, vxForType(p.T)))
+		pn := fn
+		if k := strings.IndexByte(fn, '_'); k > 0 {
+			pn = fn[:k]
+		}
+		sb.WriteString(fmt.Sprintf("\tx%d := %s\n", i, vxForType(strings.ReplaceAll(strings.ReplaceAll(p.T, "PFN", pn), "FN", pn))))
 		args = append(args, fmt.Sprintf("x%d", i))
 	}
 	sb.WriteString("\tvar in [4]int\n\tfor i := range in {\n\t\tin[i] = vxInt()\n\t}\n\tvxResetSubj(in)\n")
